@@ -113,6 +113,9 @@ type FeedRec struct {
 	TermClosed bool
 	AfterDone  int // callbacks observed after the done channel was seen closed
 	doneSeen   bool
+	Hold       chan struct{} // if non-nil, the callback blocks in its first non-marker event until Release
+	Holding    bool
+	released   bool
 }
 
 func (f *FeedRec) callback(ev sgbucket.FeedEvent) bool {
@@ -120,7 +123,20 @@ func (f *FeedRec) callback(ev sgbucket.FeedEvent) bool {
 		f.AfterDone++
 	}
 	f.Events = append(f.Events, decodeEvent(ev))
+	if f.Hold != nil && !f.released && ev.Opcode != sgbucket.FeedOpBeginBackfill && ev.Opcode != sgbucket.FeedOpEndBackfill {
+		f.Holding = true
+		vrt.Recv((<-chan struct{})(f.Hold))
+		f.Holding = false
+		f.released = true
+	}
 	return true
+}
+
+// Release lets a held callback return.
+func (f *FeedRec) Release() {
+	if f.Hold != nil && !f.released {
+		close(f.Hold)
+	}
 }
 
 // Take returns the events that arrived since the last Take.
